@@ -4,7 +4,7 @@ use crate::world::Container::*;
 use crate::world::{Opaque, Target, What};
 
 /// files scanned for `type X = <primitive>;`
-pub const ALIAS_FILES: &[&str] = &["board/src/board/constants.rs", "board/src/board/precalculated/magic.rs"];
+pub const ALIAS_FILES: &[&str] = &["board/src/board/constants.rs", "board/src/board/precalculated/magic.rs", "board/src/board/precalculated/nonmagic.rs"];
 
 /// structs whose values are flattened into one parameter per field that is read (name, file)
 pub const FLAT_STRUCTS: &[(&str, &str)] = &[
@@ -22,6 +22,29 @@ pub const FLAT_STRUCTS: &[(&str, &str)] = &[
 
 /// types whose values are only passed around: Lean type variables
 pub const OPAQUE_TYPES: &[&str] = &["Square"];
+
+/// OPAQUE TABLE TYPES: a value of such a type (a parameter `magics: &Magics`, a local chosen between two globals) is
+/// represented by its lookup FUNCTION: (type name, the one method that may be called on it, argument types, result type)
+pub const TABLE_TYPES: &[(&str, &str, &[&str], &str)] = &[
+    ("Magics", "get_attacks", &["u32", "u64"], "u64"),
+    ("Nonmagics", "get_attacks", &["u32"], "u64"),
+];
+
+/// the global tables and their types (a global used as a VALUE must also be listed as opaque receiver of the target)
+pub const TABLE_GLOBALS: &[(&str, &str)] = &[
+    ("ROOK_MAGICS", "Magics"), ("BISHOP_MAGICS", "Magics"),
+    ("KNIGHT_NONMAGICS", "Nonmagics"), ("KING_NONMAGICS", "Nonmagics"),
+    ("WHITE_PAWN_NONMAGICS", "Nonmagics"), ("BLACK_PAWN_NONMAGICS", "Nonmagics"),
+];
+
+/// Lean type of the lookup function of a table type (bit-manipulating functions only: `u64` = `UInt64`)
+pub fn table_lean_type(name: &str) -> String {
+    let t = TABLE_TYPES.iter().find(|t| t.0 == name).expect("table type");
+    let l = |s: &str| if s == "u64" { "UInt64" } else { "Int" };
+    let mut parts: Vec<&str> = t.2.iter().map(|a| l(a)).collect();
+    parts.push(l(t.3));
+    parts.join(" → ")
+}
 
 const PLAIN: What = What::Fn { opaque: &[], vec_list: false, bits: false };
 
@@ -64,6 +87,11 @@ macro_rules! bb { ($n:literal) => { Target { module: "Check", file: BOARD, conta
 macro_rules! cb { ($n:literal) => { Target { module: "MoveBits", file: BOARD_CONSTS, container: Free, name: $n, what: What::ConstB } }; }
 /// accessor / setter / predicate of `impl Move` (module `MoveBits`)
 macro_rules! mv { ($n:literal) => { Target { module: "MoveBits", file: BOARD, container: Impl("Move"), name: $n, what: BITS } }; }
+
+/// constant used by the move generator (module `Generate`)
+macro_rules! gc { ($n:literal) => { Target { module: "Generate", file: BOARD_CONSTS, container: Free, name: $n, what: What::ConstB } }; }
+/// function of the move generator (module `Generate`)
+macro_rules! gen { ($n:literal) => { Target { module: "Generate", file: BOARD, container: Impl("Bitboard"), name: $n, what: CHECK } }; }
 
 pub const TARGETS: &[Target] = &[
     // ---- Board
@@ -189,4 +217,33 @@ pub const TARGETS: &[Target] = &[
     Target { module: "MakeUnmake", file: BOARD, container: Impl("Bitboard"), name: "unmake", what: BITS },
     // ---- `is_move_legal` = make; is_valid; unmake
     Target { module: "Legal", file: BOARD, container: Impl("Bitboard"), name: "is_move_legal", what: CHECK },
+    // ---- the move constructor `make_move` of the generator (side effects of a move computed at generation time) (C01 / C02)
+    Target { module: "MoveCtor", file: BOARD, container: Impl("PlayerState"), name: "get_piece_const_by_square_mask", what: BITS },
+    Target { module: "MoveCtor", file: BOARD, container: Impl("PlayerState"), name: "get_piece_const_by_square_shift", what: BITS },
+    Target { module: "MoveCtor", file: BOARD, container: Impl("Bitboard"), name: "PIECE_VALUES", what: What::Const },
+    Target { module: "MoveCtor", file: BOARD, container: Impl("Bitboard"), name: "mvv_lva", what: BITS },
+    Target { module: "MoveCtor", file: BOARD, container: Impl("Bitboard"), name: "make_move", what: BITS },
+    // ---- the pseudo-legal move generator (C01); the attack tables are opaque lookup functions
+    gc!("B8"), gc!("A7"), gc!("B7"), gc!("C7"), gc!("D7"), gc!("E7"), gc!("F7"), gc!("G7"), gc!("H7"),
+    gc!("A2"), gc!("B2"), gc!("C2"), gc!("D2"), gc!("E2"), gc!("F2"), gc!("G2"), gc!("H2"), gc!("B1"),
+    gc!("B8_MASK"), gc!("C8_MASK"), gc!("E8_MASK"), gc!("G8_MASK"),
+    gc!("A7_MASK"), gc!("B7_MASK"), gc!("C7_MASK"), gc!("D7_MASK"), gc!("E7_MASK"), gc!("F7_MASK"), gc!("G7_MASK"), gc!("H7_MASK"),
+    gc!("A2_MASK"), gc!("B2_MASK"), gc!("C2_MASK"), gc!("D2_MASK"), gc!("E2_MASK"), gc!("F2_MASK"), gc!("G2_MASK"), gc!("H2_MASK"),
+    gc!("B1_MASK"), gc!("C1_MASK"), gc!("E1_MASK"), gc!("G1_MASK"),
+    gc!("WHITE_QUEEN_SIDE_CASTLE_EMPTY_OCCUPANCY"), gc!("WHITE_KING_SIDE_CASTLE_EMPTY_OCCUPANCY"),
+    gc!("BLACK_QUEEN_SIDE_CASTLE_EMPTY_OCCUPANCY"), gc!("BLACK_KING_SIDE_CASTLE_EMPTY_OCCUPANCY"),
+    gc!("WHITE_QUEEN_SIDE_CASTLE_CHECK_OCCUPANCY"), gc!("WHITE_KING_SIDE_CASTLE_CHECK_OCCUPANCY"),
+    gc!("BLACK_QUEEN_SIDE_CASTLE_CHECK_OCCUPANCY"), gc!("BLACK_KING_SIDE_CASTLE_CHECK_OCCUPANCY"),
+    gc!("RANK_1_OCCUPANCY"), gc!("RANK_2_OCCUPANCY"), gc!("RANK_7_OCCUPANCY"), gc!("RANK_8_OCCUPANCY"),
+    gc!("CASTLE_MOVE_TRUE_MASK"), gc!("CASTLE_MOVE_FALSE_MASK"), gc!("EN_PASSANT_ATTACK_TRUE_MASK"), gc!("EN_PASSANT_ATTACK_FALSE_MASK"),
+    Target { module: "Generate", file: BOARD_LIB, container: Free, name: "mask_and_shift_from_lowest_one_bit", what: BITS },
+    gen!("get_active_and_passive"), gen!("_is_occupancy_in_check"),
+    gen!("generate_attacks"), gen!("sliding_moves"), gen!("single_moves"),
+    gen!("generate_pawn_promotion"), gen!("generate_pawn_promotions"), gen!("generate_pawn_attacks"), gen!("pawn_attacks"), gen!("pawn_moves"),
+    gen!("make_castle_move"), gen!("castle_moves"),
+    gen!("generate_pseudo_legal_moves_with_buffer"), gen!("generate_pseudo_legal_non_quiescent_moves_with_buffer"),
+    gen!("generate_pseudo_legal_moves"), gen!("generate_pseudo_legal_non_quiescent_moves"),
+    // ---- the legality filter over generated moves (`is_move_legal` = make; is_valid; unmake modifies `self`)
+    Target { module: "GenerateLegal", file: BOARD, container: Impl("Bitboard"), name: "generate_legal_moves", what: CHECK },
+    Target { module: "GenerateLegal", file: BOARD, container: Impl("Bitboard"), name: "is_any_move_legal", what: CHECK },
 ];
